@@ -302,7 +302,7 @@ func c02Adversary(r *kernel.Run, tp *kernel.Tape, w *Wire, srv *World, loader bo
 	}
 	stateKind := Pick2(tp, "none", "none", "signed-by-presented-key", "forged", "unsigned")
 	if stateKind != "none" {
-		sb, _ := proto.Marshal(mkStruct(r, 2))
+		sb := detMarshal(mkStruct(r, 2))
 		req.ClientState = sb
 		switch stateKind {
 		case "signed-by-presented-key":
